@@ -2,6 +2,11 @@ package main
 
 // K4 (C10, C11): flag lookup, validators, plan modifiers by path / Message.Field.
 
+import (
+	"github.com/gogo/protobuf/protoc-gen-gogo/descriptor"
+	"github.com/gogo/protobuf/protoc-gen-gogo/generator"
+)
+
 func vrtFlagMap(k int) flagMap {
 	m := flagMap{}
 	n := vrtLen(k)
@@ -92,4 +97,19 @@ func Harness_K4_Lists() {
 		vrtAssert("C10+C11/K4/plan-modifiers-none", len(gotP) == 0)
 	}
 	vrtReach("K4/lists/end")
+}
+
+// Harness_K4_MessageKey (C10, C11): the "Message" of a Message.Field option key is the proto name of
+// the message (not its Go type name, not its path), and the Go type is that name in the struct package.
+func Harness_K4_MessageKey() {
+	name, pkg := vrtString(), vrtString()
+	dp := &descriptor.DescriptorProto{Name: &name}
+	mc := MessageBuildContext{desc: &generator.Descriptor{DescriptorProto: dp}, config: &Config{DefaultPackageName: pkg}}
+	vrtAssert("C10+C11/K4/message-key-is-proto-name", mc.GetName() == name)
+	want := name
+	if pkg != "" {
+		want = pkg + "." + name
+	}
+	vrtAssert("C10+C11/K4/message-go-type", mc.GetGoType() == want)
+	vrtReach("K4/messagekey/end")
 }
